@@ -135,6 +135,7 @@ class Ctx:
         self.native = True
         self.results = []
         self.notes = []
+        self.ghost = {}
 
     # ---- inputs come from the counter-model
     def int(self, name, lo=None, hi=None):
@@ -172,6 +173,15 @@ class Ctx:
     def fill(self, value, length):
         return bytes([value]) * length
 
+    def bytearray_of(self, b):
+        return bytearray(b)
+
+    def bytes_val(self, b):
+        return bytes(b)
+
+    def truth(self, v):
+        return bool(v)
+
     def recorder(self, name, handler=None, **attrs):
         return _Recorder(name, handler, attrs)
 
@@ -185,7 +195,13 @@ class Ctx:
         return _Opaque(name)
 
     def record(self, kind, **attrs):
-        o = _Opaque(kind)
+        ns = {}
+        if "__bytes__" in attrs:
+            data = bytes(attrs.pop("__bytes__"))
+            ns["__bytes__"] = lambda self: data
+            ns["__len__"] = lambda self: len(data)
+        cls = type("Record_" + kind.replace(".", "_"), (), ns)
+        o = cls()
         o.__dict__.update(attrs)
         return o
 
